@@ -70,8 +70,10 @@ def _parse(out, text):
             out.graph = json.loads(line[8:])
 
 
-def run_probe(exe, texts, timeout=20.0, env=None, mem_gb=4):
-    """texts: list of RIDDLE sources (one file each); returns Outcome"""
+def run_probe(exe, texts, timeout=20.0, env=None, mem_gb=4, incremental=False):
+    """texts: list of RIDDLE sources (one file each; incremental: read + solve one after the other); returns Outcome"""
+    if incremental:
+        env = dict(env or drv.san_env(), PROBE_INCREMENTAL="1")
     os.makedirs(TMP_ROOT, exist_ok=True)
     d = tempfile.mkdtemp(prefix="p", dir=TMP_ROOT)
     out = Outcome()
